@@ -1,0 +1,66 @@
+//go:build verif
+
+package mimetype
+
+// Verification hooks (build tag "verif"): read-only views of unexported state
+// used by the /verif harness. Nothing here is compiled without the tag.
+
+// VerifNode is a snapshot of one node of the detector tree.
+type VerifNode struct {
+	ID        int
+	MIME      string
+	Extension string
+	Aliases   []string
+	AliasCap  int
+	Parent    int // -1 for the root
+	Children  []int
+	Detector  func([]byte, uint32) bool
+	Node      *MIME
+}
+
+// VerifDump returns the tree in flatten() order with real parent/children pointers
+// resolved to indices. The caller must not run it concurrently with Extend.
+func VerifDump() []VerifNode {
+	mu.RLock()
+	defer mu.RUnlock()
+	flat := root.flatten()
+	idx := make(map[*MIME]int, len(flat))
+	for i, m := range flat {
+		idx[m] = i
+	}
+	out := make([]VerifNode, len(flat))
+	for i, m := range flat {
+		p := -1
+		if m.parent != nil {
+			if j, ok := idx[m.parent]; ok {
+				p = j
+			} else {
+				p = -2 // dangling parent pointer
+			}
+		}
+		cs := make([]int, len(m.children))
+		for k, c := range m.children {
+			cs[k] = idx[c]
+		}
+		out[i] = VerifNode{ID: i, MIME: m.mime, Extension: m.extension,
+			Aliases: m.aliases, AliasCap: cap(m.aliases), Parent: p, Children: cs,
+			Detector: m.detector, Node: m}
+	}
+	return out
+}
+
+// VerifErrMIME returns the shared error value.
+func VerifErrMIME() *MIME { return errMIME }
+
+// VerifRoot returns the root node.
+func VerifRoot() *MIME { return root }
+
+// VerifDefaultLimit returns the default read limit.
+func VerifDefaultLimit() uint32 { return defaultLimit }
+
+// VerifMatch runs the tree walk directly on (in, limit) without slicing.
+func VerifMatch(in []byte, limit uint32) *MIME {
+	mu.RLock()
+	defer mu.RUnlock()
+	return root.match(in, limit)
+}
